@@ -9,7 +9,7 @@ from .. import rx
 from .. import spec_tables as spec
 from ..core import AnalysisError, ClassInfo, Ctx, External, FuncInfo, calls_in, dotted, norm, unparse, walk_no_nested
 from ..decide import A, Path, PathEnumerator, f_and, f_eval, f_not, f_or, f_str, path_formula, paths_of, to_formula, valuations
-from ..fold import Folder, Unfoldable
+from ..fold import Folder, Sym, Unfoldable
 from ..regions import evaluate_region, exc_class_of, flatten_init, mentions
 
 SER = "_serializable."
@@ -177,49 +177,67 @@ def _is_ide_name(ctx: Ctx, name: str) -> bool:
 
 
 def _must_call_sites(ctx: Ctx, repo: Any) -> None:
-    # must-call: Attribute.__init__
+    """who must pass the name check: every attribute class is constructed (by its own constructor chain, evaluated from the
+    source) over a non-void type, a void type and a service type, named and unnamed, with `check_name` recorded: a non-void
+    attribute is accepted only after check_name(its name); a void field must be unnamed; a service type is no field type"""
+    from ..absint import Raised, construct, ctor_hook, module_call_hook, path_hook
+    from . import c05 as M
+
     attr = ctx.cls(SER + "_attribute.Attribute")
-    ainit = attr.methods.get("__init__")
+    ainit = repo.lookup_method(attr, "__init__")
     if ainit is None:
         raise AnalysisError("Attribute.__init__ missing")
-    apaths = paths_of(ainit.node)
-    void = ctx.cls(SER + "_void.VoidType")
-
-    def atomize(e: Any) -> Any:
-        if isinstance(e, tuple):
-            raise AnalysisError("unexpected marker in Attribute.__init__")
-        if isinstance(e, ast.Call) and dotted(e.func) == "isinstance" and norm(e.args[0]) == "data_type":
-            k = repo.resolve_expr(ainit.module, e.args[1], attr)
-            if k is void:
-                return A("IS_VOID")
-            if isinstance(k, ClassInfo) and k.name == "ServiceType":
-                return A("IS_SERVICE")
-        if norm(e) in ("str(name)", "self._name", "name"):
-            return A("NAMED")
-        raise AnalysisError("Attribute.__init__: condition outside the abstraction: %s" % norm(e))
-
+    u8 = M._construct_outcome(ctx, ctx.cls(SER + "_primitive.UnsignedIntegerType"), 8, "CastMode.TRUNCATED")
+    v8 = M._construct_outcome(ctx, ctx.cls(SER + "_void.VoidType"), 8)
+    rq = M.structure(ctx, name="ns.S.Request", half=True)
+    rs = M.structure(ctx, name="ns.S.Response", half=True)
+    svc = M.build_model(ctx, SER + "_composite.ServiceType", request=rq, response=rs, fixed_port_id=None) if not (isinstance(rq, str) or isinstance(rs, str)) else "halves"
+    if isinstance(u8, str) or isinstance(v8, str) or isinstance(svc, str):
+        raise AnalysisError("the operand types cannot be constructed over abstract arguments: %s / %s / %s" % (u8, v8, svc))
     bad = []
-    from ..decide import f_atoms
-
-    used_atoms = {a for p in apaths for a in f_atoms(path_formula(p, atomize))}
-    for val in valuations(["IS_VOID", "NAMED"] + (["IS_SERVICE"] if "IS_SERVICE" in used_atoms else []), lambda v: not (v.get("IS_SERVICE") and v["IS_VOID"])):
-        taken = [p for p in apaths if f_eval(path_formula(p, atomize), val)]
-        ctx.count()
-        if len(taken) != 1:
-            raise AnalysisError("Attribute.__init__: %d feasible paths" % len(taken))
-        p = taken[0]
-        checked = any(isinstance(ev, ast.Call) and dotted(ev.func) == "check_name" and [norm(a) for a in ev.args] == ["str(name)"] for ev in p.events)
-        if val.get("IS_SERVICE"):
-            if p.kind != "raise" or not _raises_ide(ctx, ainit, p.value):
-                bad.append({"state": val, "found": p.kind})
-        elif val["IS_VOID"]:
-            want_reject = val["NAMED"]
-            if (p.kind == "raise") != want_reject or (p.kind == "raise" and not _raises_ide(ctx, ainit, p.value)):
-                bad.append({"state": val, "found": p.kind})
-        else:
-            if p.kind == "raise" or not checked:
-                bad.append({"state": val, "found": p.kind, "check_name_called": checked})
-    ctx.check(not bad, ainit.short, "name check on every attribute", "non-void attributes must pass check_name; void fields must be unnamed", ainit.where(), bad)
+    for cname, extra in (("Field", ()), ("PaddingField", None), ("Constant", (Sym(_kind_="value", _isa_=frozenset({"Any", "Primitive", "Rational"}), native_value=1, is_integer=lambda: True),))):
+        c = ctx.cls(SER + "_attribute." + cname)
+        for tlabel, t in (("non-void", u8), ("void", v8), ("service", svc)):
+            for name in ("x", ""):
+                if cname == "PaddingField":
+                    if name:
+                        continue
+                    args: Any = (t,)
+                else:
+                    args = (t, name) + tuple(extra or ())
+                log: List[Any] = []
+                hook = path_hook(ctor_hook(ctx, module_call_hook(ctx, c.module, [], log, results={"check_name": None}, record=["check_name"])))
+                try:
+                    construct(ctx, c, *args, hook=hook)
+                    got = "accepted"
+                except Raised as r:
+                    got = r.cls_name
+                except Unfoldable as ex:
+                    raise AnalysisError("%s%r cannot be evaluated: %s" % (cname, (tlabel, name), ex))
+                ctx.count()
+                checked = [a_[0] for n_, a_, _k in log if n_ == "check_name" and a_]
+                state = {"attribute": cname, "type": tlabel, "name": name}
+                if tlabel == "service":
+                    if got == "accepted" or not _is_ide_name(ctx, got):
+                        bad.append(dict(state, found=got, expected="an InvalidDefinitionError"))
+                elif tlabel == "void":
+                    if cname == "Constant":
+                        if got == "accepted" or not _is_ide_name(ctx, got):
+                            bad.append(dict(state, found=got, expected="an InvalidDefinitionError (void carries no constant)"))
+                    elif name:
+                        if got == "accepted" or not _is_ide_name(ctx, got):
+                            bad.append(dict(state, found=got, expected="an InvalidDefinitionError (void fields are unnamed)"))
+                    elif got != "accepted":
+                        bad.append(dict(state, found=got, expected="accepted"))
+                else:
+                    if cname == "PaddingField":
+                        if got == "accepted" or not _is_ide_name(ctx, got):
+                            bad.append(dict(state, found=got, expected="an InvalidDefinitionError (padding is void)"))
+                    elif got == "accepted" and checked != [name]:
+                        bad.append(dict(state, found="accepted with check_name called on %r" % (checked,), expected="check_name(%r) before acceptance" % name))
+                    elif got != "accepted" and not _is_ide_name(ctx, got):
+                        bad.append(dict(state, found=got, expected="accepted or an InvalidDefinitionError"))
+    ctx.check(not bad, ainit.short, "name check on every attribute (attribute classes constructed over non-void / void / service types, named and unnamed)", "non-void attributes must pass check_name; void fields must be unnamed", ainit.where(), bad[:4])
 
 
 # ---------------------------------------------------------------------------------------------------- R6 aggregation
